@@ -238,6 +238,9 @@ def run_units(pid, tier, seed):
         # print a digest of the failure for the human
         m = re.search(r"(\[rapid\] (failed|panic).*?)(?=\n\s*--- FAIL|\Z)", text, flags=re.S)
         digest = (m.group(1) if m else text[-2500:])
+        cut = digest.find("Failed test output:")
+        if cut > 0:
+            digest = digest[:cut]
         sys.stderr.write("---- %s (%s) ----\n%s\n" % (name, ",".join(failed), digest[:4000]))
         print("VIOLATION property=%s replay=%s" % (pid, mpath))
     if not violations and not infra:
